@@ -11,6 +11,28 @@ ALL = ['C%02d' % i for i in range(1, 21)]
 
 # property -> (technique, level text, level note, design ref)
 BUILT = {
+    'C01': ('hypothesis-generated model grids + deterministic catalogue, round-trip oracle with an own kind-strict comparator',
+            'Grids over the whole documented value domain (every kind in every position, metachar-biased strings over all '
+            'code points, boundary floats, all mapped zones, nesting<=3, versions 2.0/3.0, single and multi-grid documents) are '
+            'dumped as ZINC and parsed back; the result is compared with the input model by a comparator written for this '
+            'harness (exact kinds, exact numbers/dates/times/instants/offsets/zone names, coordinates to six decimals). A '
+            'deterministic catalogue covers boundary payloads, every zone and every kind x position cell. Exploration: '
+            'finds counterexamples, proves nothing.',
+            'Trusts vf.model.to_model/from_model and the domain restrictions listed in DESIGN.md 1.4.',
+            'DESIGN.md 3/C01'),
+    'C02': ('hypothesis-generated model grids + deterministic catalogue, JSON round-trip oracle x {text, bytes, pre-decoded} input',
+            'Same generators as C01 through JSON mode; input handed back as text, bytes in utf-8/16/32, or the pre-decoded '
+            'object; six-decimal tolerance only on float payloads; Remove spelling per version checked on the emitted JSON. '
+            'Exploration only.',
+            'Trusts vf.model and the stdlib json module; tolerance rule abs(a-b) <= 5e-7 + 1e-12|a|.',
+            'DESIGN.md 3/C02'),
+    'C20': ('exhaustive operator x operand catalogue product + hypothesis ints/floats, differential oracle against the bare value',
+            'Every arithmetic/bitwise/comparison/unary/conversion operator is evaluated on Quantity(v,u) and on v for the full '
+            'product of a boundary catalogue (both operand orders, Quantity-Quantity, four units, three-argument pow); outcomes '
+            '(type+repr or exception type) must be identical; Quantity-vs-Quantity comparisons must raise TypeError iff units '
+            'differ. Exhaustive over the catalogue, sampled beyond it.',
+            'Trusts CPython numeric semantics as the reference; shift/exponent magnitudes bounded.',
+            'DESIGN.md 3/C20'),
     'C18': ('exhaustive enumeration of version-string pairs/triples + hypothesis strings against an independent reference key',
             'All 864,900 ordered pairs over 930 version strings (padding x suffix) are compared with an independently written '
             'reference order for trichotomy, six-operator agreement, string operands on both sides, hash/set/dict behaviour, '
